@@ -1,10 +1,17 @@
 #!/bin/sh
-# runs every property spec (or the given ids) and prints one summary line each
+# runs every claimed property (or the given ids) on /repo's current tree, prints one summary line each,
+# then validates every evidence file (schema, discharged == obligations, no stale or unclaimed files).
+# Run this on the UNCHANGED tree before committing /verif/evidence.
 cd /verif
 ids="$@"
 [ -z "$ids" ] && ids=$(ls props/*.spec | sed 's|props/||; s|\.spec||' | sort)
+rc=0
 for id in $ids; do
-  out=$(./check $id 2>&1)
+  rm -f evidence/$id.json
+  out=$(./check $id 2>&1) || rc=1
   echo "$out" | tail -1
-  echo "$out" | grep "failed obligation" | cut -c1-220
+  echo "$out" | grep -E "VIOLATION|KNOWN-FINDING|failed obligation" | cut -c1-220
 done
+py=python3; command -v python3-vt >/dev/null 2>&1 && py=python3-vt
+$py tools/validate_evidence.py || rc=1
+exit $rc
